@@ -76,10 +76,15 @@ def run(ctx):
     if not mcx.ok:
         raise InfraError("spec-level counterexample in RefreshHold_mc_explicit: %s" % mcx.summary())
     mc3 = None
+    deep = None
     if not ctx.quick:
         mc3 = tlc.run(ctx, "RefreshHold", "RefreshHold_mc_thorough3.cfg", workers=workers, timeout=3600, name="tlc_3snaps")
         if not mc3.ok:
             raise InfraError("spec-level counterexample in RefreshHold_mc_thorough3: %s" % mc3.summary())
+        deep = tlc.run(ctx, "RefreshHold", "RefreshHold_mc_deep.cfg", workers=workers, timeout=7200, heap="12g", name="tlc_deep")
+        if not deep.ok:
+            raise InfraError("spec-level counterexample in RefreshHold_mc_deep: %s" % deep.summary())
+        ctx.log("TLC RefreshHold_mc_deep.cfg: %d distinct / %d generated, %.0fs" % (deep.distinct, deep.generated, deep.wall))
         # documented expectation: with explicit durations the 48h bound can be exceeded (no production caller
         # passes one); TLC must find that counterexample, otherwise the spec no longer transcribes the code.
         bad = tlc.run(ctx, "RefreshHold", "RefreshHold_mc_explicit_other.cfg", workers=workers, timeout=1800,
@@ -158,6 +163,7 @@ def run(ctx):
         coverage={
             "states": mc.distinct, "transitions": mc.generated, "tlc_wall_s": round(mc.wall, 1), "tlc_config": cfg,
             "tlc_explicit_states": mcx.distinct, "tlc_3snaps_states": mc3.distinct if mc3 else None,
+            "tlc_deep_states": deep.distinct if deep else None, "tlc_deep_transitions": deep.generated if deep else None,
             "action_coverage": tlc.coverage_summary(mc),
             "invariants": INVS,
             "traces_validated_against_impl": totals["traces"],
